@@ -34,6 +34,8 @@ import (
 
 var nsNames = []string{"nsa", "nsb", "nsc"}
 
+const starved = "harness: reader goroutines made no progress for 180 s (machine overloaded)"
+
 const (
 	maxOps  = 16
 	absent  = -1
@@ -523,23 +525,27 @@ func run(c histCase) (o pbt.Outcome) {
 		for i, r := range readers {
 			base[i] = r.ticks.Load()
 		}
-		deadline := time.Now().Add(20 * time.Second)
+		deadline := time.Now().Add(180 * time.Second)
 		for i, r := range readers {
 			for r.ticks.Load() < base[i]+2 {
 				if d := r.died.Load(); d != nil {
 					return "reader goroutine panicked: " + d.(string)
 				}
 				if time.Now().After(deadline) {
-					return "harness: reader made no progress"
+					return starved
 				}
-				runtime.Gosched()
+				time.Sleep(20 * time.Microsecond)
 			}
 		}
 		return ""
 	}
 	if q := quiesce(); q != "" {
 		stopReaders()
-		o.Violation = q
+		if q == starved {
+			o.Skip = starved
+		} else {
+			o.Violation = q
+		}
 		return
 	}
 
@@ -666,11 +672,20 @@ steps:
 		}
 		if q := quiesce(); q != "" {
 			validStates = k
-			o.Violation = fmt.Sprintf("during/after step %d %v of %v: %s", k, x, c.Ops, q)
+			if q == starved {
+				// an overloaded machine, not an observation about Gaea (a lookup that really
+				// hangs shows up as a mass of skips, which fails the sub-check as inconclusive)
+				o.Skip = starved
+			} else {
+				o.Violation = fmt.Sprintf("during/after step %d %v of %v: %s", k, x, c.Ops, q)
+			}
 			break steps
 		}
 	}
 	stopReaders()
+	if o.Skip != "" {
+		return pbt.Outcome{Skip: o.Skip}
+	}
 	if commitsOK > 0 {
 		o.Labels = append(o.Labels, "has_successful_commit")
 	}
@@ -839,19 +854,30 @@ func TestC31Sequential(t *testing.T) {
 }
 
 func TestC31Concurrent(t *testing.T) {
-	quick, thorough := 100, 600
+	quick, thorough := 100, 300
 	if raceRun() {
 		quick, thorough = 60, 150 // the race runtime allows 8128 live goroutines; Gaea parks one per replaced namespace for 60 s
 	}
 	var last histCase
+	var rec *pbt.Recorder
 	defer raceGuard(t, "concurrent", func() interface{} { return last })
 	pbt.RunWith(t, pbt.Spec{ID: "C31", Sub: "concurrent", Quick: quick, Thorough: thorough,
 		Rule: "the same histories issued by one writer while 1-3 reader goroutines sweep GetNamespace / GetNamespaceByUser / CheckUser; every lookup is stamped with the step counter before and after and must return a value the specification had at some moment in that window; readers complete two sweeps between consecutive operations (a lookup overlaps at most one operation); run under -race in the thorough tier; non-trivial = interleaved history (as in the sequential sub-check)",
-		Floor: 0.3}, genConc, func(c histCase, _ *pbt.Recorder) pbt.Outcome {
+		Floor: 0.3}, genConc, func(c histCase, r *pbt.Recorder) pbt.Outcome {
 		writeLastInput(c)
 		last = c
+		rec = r
 		return checkConc(c)
 	})
+	if rec != nil {
+		skipped := 0
+		for _, n := range rec.Skipped {
+			skipped += n
+		}
+		if skipped*10 > rec.Evaluations {
+			t.Fatalf("inconclusive: %d cases skipped against %d evaluated (%v)", skipped, rec.Evaluations, rec.Skipped)
+		}
+	}
 }
 
 // writeLastInput leaves the running case where the driver looks for it when
@@ -923,7 +949,7 @@ func checkFresh(c freshCase) (o pbt.Outcome) {
 	}()
 	waitCalls := func(n int64) string {
 		base := calls.Load()
-		deadline := time.Now().Add(60 * time.Second)
+		deadline := time.Now().Add(180 * time.Second)
 		for calls.Load() < base+n {
 			if d := died.Load(); d != nil {
 				return "the metrics computation panicked: " + d.(string)
@@ -1003,8 +1029,13 @@ func checkFresh(c freshCase) (o pbt.Outcome) {
 		fail("runtime panic while reloading a fresh name: %s", p)
 	}
 	// the ticker must get through a whole computation that started after the last insert
+	starvedTicker := false
 	if q := waitCalls(2); q != "" {
-		fail("%s", q)
+		if strings.HasPrefix(q, "harness:") {
+			starvedTicker = true // overloaded machine; reported as a skip below
+		} else {
+			fail("%s", q)
+		}
 	}
 	// leave nothing behind: settle an abandoned prepare, delete the fresh names
 	pbt.Catch(func() {
@@ -1022,6 +1053,9 @@ func checkFresh(c freshCase) (o pbt.Outcome) {
 			}
 		}
 	})
+	if starvedTicker && o.Violation == "" {
+		return pbt.Outcome{Skip: "harness: CalcAvgSQLTimes made no progress for 180 s (machine overloaded)"}
+	}
 	o.NonTrivial = true
 	o.Labels = append(o.Labels, fmt.Sprintf("fresh_names_%d", c.Fresh))
 	return
